@@ -3,6 +3,8 @@ HOOK_COMMITS = ["f7a29f8"]
 NOTES = ("Model-based verification with explicit TLA+ specifications (spec/), TLC, and a Rust recorder (harness/) "
          "that only drives and records; every verdict is computed by TLC. See DESIGN.md.")
 ENGINES = [
+    {"name": "statement-store", "path": "spec/Stmts.tla spec/MC_Stmts.tla spec/Judge_Stmts.tla", "serves_properties": ["C06"],
+     "kind_free_text": "state machine of the statement store (the one stateful API): exhaustive sessions, trace validation of line_2_statement + Statements; beyond the listed properties, drift only"},
     {"name": "reference-spec", "path": "spec/Chars.tla spec/Lex.tla spec/Ref.tla spec/Render.tla spec/Grammar.tla spec/Gen.tla spec/MC_Ref.tla",
      "serves_properties": ["C01", "C02", "C03", "C07", "C08"],
      "kind_free_text": "abstract TLA+ specification of lexing, grammar, meaning (two formulations), AC normal form; bounded-exhaustive generator of cases"},
@@ -111,7 +113,7 @@ CLAIMS = {
 EXTRA = {
     "C03": "Direction B includes one-level chains of up to 66 operands with priority ties.",
     "C04": "Derived lists: sessions over a pool of 40 names (merged lists beyond the inline capacity of 16) through operator application, substitution and conversion.",
-    "C06": "Value-typed texts with array literals and array-valued variables; long texts without nesting (20-500 operands) through parse, conversions and partial, one process per case: known finding F11 (stack exhaustion from ~100 operands in FlatEx::partial and flat->deep->flat) is reported, any other abort is a violation.",
+    "C06": "Value-typed texts with array literals and array-valued variables; long texts without nesting (20-500 operands) through parse, conversions and partial, one process per case: known finding F11 (stack exhaustion from ~100 operands in FlatEx::partial) is reported, any other abort is a violation. The statement store (Stmts.tla: assignment, re-assignment, one-level resolution) is explored exhaustively for sessions of <= 3/4 lines and trace-validated on the real Statements type; only a panic is a violation there, other differences are reported as drift.",
     "C12": "Text-level direction A: every enumerated tree x rendering over T8 and over the adversarial-name table TAdv printed from the deep form three ways and parsed back; DeepImpl.Unparse (transcription of unparse_raw) is model-checked (UnparseRefines) and the printer of the pinned snapshot must violate the invariant.",
     "C14": "Chains are capped at 250 operands (TLC's JSON reader nests at most 255 deep); 6000 random schedules of up to 200 operands on the real trackers are judged by Tracker.tla.",
     "C15": "Every subset of absent variables is additionally listed without occurring (built as e + g*0 through the deep form); one variable occurring up to 300 times.",
